@@ -154,6 +154,15 @@ CHECKS["C10"] = ("other",
     "are built only by Path's own constructors.",
     TB % "c10", "symbolic path algebra via abstract interpretation of MIR (no execution)", "DESIGN.md §5 C10")
 
+CHECKS["C15"] = ("other",
+    "NOT program-transformation equivalence (behavioural). Decided: the scope chain (a block scope consults its own literals, "
+    "memo, function expressions and queries first and the parent only when all miss; the root scope errors on a miss; what is "
+    "memoised is what is returned, under the requested name; a memo hit is returned without re-evaluation), every site that wraps a "
+    "literal let/argument value uses QueryResult::Literal (sibling agreement; one deviant site was a genuine defect and is "
+    "repaired), parameter i is bound to argument i after the arity comparison and shadows outer names, and the parser inserts [*] "
+    "after a leading variable.",
+    TB % "c15", "monitors via abstract interpretation of MIR (no execution)", "DESIGN.md §5 C15")
+
 NOT_APPLICABLE = {
 }
 
